@@ -377,7 +377,7 @@ func c18Cases(tier string) []c18Case {
 	nodes := c18Nodes()
 	bound := 1
 	if tier == "thorough" {
-		bound = 2
+		bound = 3
 	}
 	var out []c18Case
 	for ti, t := range c18Templates {
@@ -401,11 +401,19 @@ func c18Cases(tier string) []c18Case {
 		for i, a := range opts {
 			out = append(out, c18Case{ti, []c18Dev{a}})
 			if bound >= 2 {
-				for _, b := range opts[i+1:] {
+				for j, b := range opts[i+1:] {
 					if b.path == a.path || c18Conflict(a, b) {
 						continue
 					}
 					out = append(out, c18Case{ti, []c18Dev{a, b}})
+					if bound >= 3 {
+						for _, c := range opts[i+1+j+1:] {
+							if c.path == a.path || c.path == b.path || c18Conflict(a, c) || c18Conflict(b, c) {
+								continue
+							}
+							out = append(out, c18Case{ti, []c18Dev{a, b, c}})
+						}
+					}
 				}
 			}
 		}
@@ -513,7 +521,7 @@ func init() {
 		ID:    "C18",
 		Level: "model_checking",
 		Rule: "one logical binding environment (19 bindings: ints, floats, strings, bool, nil, flat/nested/empty lists, maps, list of maps; ~60 value-tree nodes) x 27 templates using each binding only in the positions the statement names; every node independently chooses a Go representation (numeric width, Drop by value / by pointer, pointer, typed slice, fixed array, typed map, MapSlice, []byte); " +
-			"deviation-bounded exploration: all assignments with <=1 (quick) / <=2 (thorough) non-default nodes among the nodes a template uses; oracle = output of the all-generic assignment; " +
+			"deviation-bounded exploration: all assignments with <=1 (quick) / <=3 (thorough) non-default nodes among the nodes a template uses; oracle = output of the all-generic assignment; " +
 			"state = multiset of non-default representations; transition/trace = one assignment rendered",
 		Assumptions: []string{
 			"[]byte only for top-level strings that are printed or string-filter input; MapSlice only in lookup/size templates; pointers only at top level or as map values reached by property lookup",
@@ -523,7 +531,7 @@ func init() {
 		Families: c18Families,
 		Bound: func(tier string) string {
 			if tier == "thorough" {
-				return "all assignments with <=2 non-default nodes"
+				return "all assignments with <=3 non-default nodes"
 			}
 			return "all assignments with <=1 non-default node"
 		},
